@@ -35,6 +35,8 @@ const PREFIX: &str = "vdb/docs/";
 #[derive(Clone, Debug, Serialize, Deserialize, PartialEq)]
 enum Call {
     Op(Op),
+    /// close_collection, then reopen with an index created / removed in the open callback
+    Reindex(vdb::ops::IdxDelta),
     Reconcile,
     CollClose,
     DbCloseCollection,
@@ -46,7 +48,7 @@ enum Call {
 
 impl Call {
     fn is_transition(&self) -> bool {
-        !matches!(self, Call::Op(_) | Call::Reconcile)
+        !matches!(self, Call::Op(_) | Call::Reconcile | Call::Reindex(_))
     }
 }
 
@@ -61,6 +63,16 @@ async fn exec_call(db: &AndaDB, coll: &Arc<Collection>, call: &Call) -> Outcome 
             Ok(_) => Outcome::Unit,
             Err(e) => Outcome::Err(classify(&e)),
         },
+        Call::Reindex(delta) => {
+            if let Err(e) = db.close_collection(COLL_NAME).await {
+                return Outcome::Err(classify(&e));
+            }
+            let had = Idx::ALL;
+            match fixture::open_coll_with(db, delta.apply(had), had).await {
+                Ok(_) => Outcome::Unit,
+                Err(e) => Outcome::Err(classify(&e)),
+            }
+        }
         Call::CollClose => unit(coll.close().await),
         Call::DbCloseCollection => unit(db.close_collection(COLL_NAME).await),
         Call::DbDeleteCollection => unit(db.delete_collection(COLL_NAME).await),
@@ -226,7 +238,8 @@ fn expectation_from(model: &SeqModel, idx: Idx, uncertain: &[&Call], acked: &[(&
 /// poisoned / closed handle) and applies the C01/C02 oracles.
 fn reopen_and_check(live: &mut Live, idx: Idx, exp: &Expectation, problems: &mut Vec<(String, String)>, label: &str) {
     live.ctl.set_task(60);
-    let reopened = util::block_on(fixture::open_coll_with(&live.fx.db, idx, idx));
+    let reopened = util::block_on(fixture::open_coll_with(&live.fx.db, exp.want_idx, idx));
+    let idx = exp.want_idx;
     let coll = match reopened {
         Ok(c) => c,
         Err(e) => {
@@ -385,7 +398,11 @@ fn cancel_case(idx: Idx, call: &Call, dirty: bool, k: u32) -> CancelResult {
                     retained_battery(&live, &coll, &l, &mut problems);
                 }
             }
-            let exp = expectation_from(&model, idx, &[call], &[], next_id);
+            let mut exp = expectation_from(&model, idx, &[call], &[], next_id);
+            if let Call::Reindex(delta) = call {
+                // the caller retries the same open: the requested index set is the target
+                exp.want_idx = delta.apply(idx);
+            }
             reopen_and_check(&mut live, idx, &exp, &mut problems, &format!("cancelled-{}", call_kind(call)));
         }
     }
@@ -407,6 +424,7 @@ fn call_kind(c: &Call) -> String {
         Call::Op(Op::CompactBtree) => "compact_btree".into(),
         Call::Op(Op::CompactBm25) => "compact_bm25".into(),
         Call::Op(o) => format!("{o:?}"),
+        Call::Reindex(d) => format!("reindex-{d:?}"),
         Call::Reconcile => "reconcile".into(),
         Call::CollClose => "close".into(),
         Call::DbCloseCollection => "close_collection".into(),
@@ -854,6 +872,9 @@ fn main() {
         Call::DbCloseCollection,
         Call::DbDeleteCollection,
         Call::DbClose,
+        Call::Reindex(vdb::ops::IdxDelta::DropTags),
+        Call::Reindex(vdb::ops::IdxDelta::DropBody),
+        Call::Reindex(vdb::ops::IdxDelta::DropEmb),
     ];
     let mut items = Vec::new();
     for c in &cancel_calls {
